@@ -518,7 +518,8 @@ CallFlush(a, e) == [a EXCEPT !.fl = Put(@, e.t, DueNow(a))]
 RetFlush(a, e) ==
   LET late == Get(a.fl, e.t, {}) \cap a.exp IN
   IF a.cfg.enabled /\ late # {}
-  THEN CopyMissing(a, Viol(a, IF a.cfg.cancelable THEN "C03" ELSE "C01", "not-delivered-by-flush", {[n |-> x.n, r |-> x.r] : x \in late}), late)
+  THEN CopyMissing(a, ViolK(a, IF a.cfg.cancelable THEN "C03" ELSE "C01", "not-delivered-by-flush", {[n |-> x.n, r |-> x.r] : x \in late},
+                               IF \A x \in late : a.rt[x.r].cid \in a.cut THEN "cut" ELSE None), late)
   ELSE a
 
 \* local context must be what the abstract scopes say (C10), with the right identifiers (C11)
@@ -635,11 +636,13 @@ TakeAll(a, recs, i) == IF i > Len(recs) THEN a ELSE TakeAll(TakeRecord(a, recs[i
 \* a cancelled trace never arrives (C04)
 BatchRules(a0, a, got) ==
   LET roots == {e.r : e \in Rng(got)}
+      \* a member whose submission was refused by a full queue (C09: such span sets may be missing)
+      Excused(r, m) == \E x \in a0.opt : x.r = r /\ x.n = m.n /\ x.ci = m.ci /\ (m.n = r \/ x.par = m.par)
       bad(r) ==
         IF a0.rt[r].done THEN "after-root-batch"
         ELSE IF a0.rt[r].st = "open" THEN "before-root-finished"
-        ELSE IF ~\E e \in Rng(got) : e.r = r /\ e.n = r THEN "without-root-record"
-        ELSE IF \E m \in a0.rt[r].mem : ~\E e \in Rng(got) : e.r = r /\ e.n = m.n /\ e.par = m.par /\ e.ci = m.ci THEN "incomplete"
+        ELSE IF ~(\E e \in Rng(got) : e.r = r /\ e.n = r) /\ ~Excused(r, [n |-> r, par |-> None, ci |-> 1]) THEN "without-root-record"
+        ELSE IF \E m \in a0.rt[r].mem : ~Excused(r, m) /\ ~\E e \in Rng(got) : e.r = r /\ e.n = m.n /\ e.par = m.par /\ e.ci = m.ci THEN "incomplete"
         ELSE "ok"
       RECURSIVE go(_, _)
       go(st, rs) == IF rs = {} THEN st
